@@ -39,7 +39,7 @@ Next == \/ phase = "m" /\ ~MDone /\ RTStep /\ UNCHANGED <<hvars, phase>>
         \/ /\ phase = "m" /\ MDone /\ phase' = "h"
            /\ h' = HInitRec(hcase) /\ UNCHANGED hcase
            /\ choices' = <<>> /\ trail' = <<>> /\ anchors' = <<>> /\ snaps' = <<>> /\ mem' = <<>>
-           /\ shstack' = <<>> /\ sh' = [sh EXCEPT !.tags = <<>>, !.arrays = <<>>, !.acts = <<>>, !.marks = {}, !.trys = <<>>]
+           /\ shstack' = <<>> /\ sh' = [sh EXCEPT !.tags = <<>>, !.arrays = <<>>, !.acts = <<>>, !.marks = {}, !.trys = <<>>, !.gd = <<>>]
            /\ UNCHANGED <<prog, inp, pc, out, status, tstep, alarm>>
         \/ phase = "h" /\ ~HDone /\ HStep /\ UNCHANGED <<mvars, rvars, phase>>
         \/ /\ phase = "h" /\ HDone /\ phase' = "done"
